@@ -18,7 +18,7 @@ import seqdrv
 import tracecorr
 import val
 
-IMPORTS = ['DCPrelude', 'Val', 'DiskBase', 'SqlBase', 'Gen_Disk', 'Disk', 'Gen_Sql', 'Cache', 'CacheRun', 'Conc', 'Txn', 'TxnQueue', 'ConcRun']
+IMPORTS = ['DCPrelude', 'Val', 'DiskBase', 'SqlBase', 'Gen_Disk', 'Disk', 'Gen_Sql', 'Cache', 'CacheRun', 'Conc', 'Txn', 'TxnQueue', 'TxnBlock', 'ConcRun']
 OPS = ('set', 'add', 'incr', 'decr', 'get', 'pop', 'delete', 'touch', 'contains', 'setitem', 'delitem', 'push', 'pull', 'peek')
 QUEUE_OPS = ('push', 'pull', 'peek')
 MISS = '<miss>'
@@ -210,6 +210,70 @@ def build_crash(k, program, setup, settings, obs, now=1000.0, setup_now=900.0):
         cfg_term(settings), fw.clist([call_term(c, setup_now) for c in (setup or [])]), fw.clist([call_term(c, now) for c in program]),
         fw.clist(['(0%%nat, %s)' % t for t in merged]), fw.clist(seen), fw.cbool(inflight), seqdrv.obs_term(obs)[len('(Some '):-1])
     return term, {'events': [(0, t) for t in merged], 'seen': [seen]}
+
+
+BLOCK_OPS = ('begin_block', 'end_block', 'raise_in_block')
+WRITES = ('set', 'add', 'incr', 'decr', 'pop', 'delete', 'touch', 'setitem', 'delitem')
+
+
+def build_block(r, program, setup, settings, now=1000.0):
+    """One client whose program contains transact blocks (r: concdrv.run_program with ONE client, clock frozen).
+    Returns (term for ConcRun.block_check, info) or (None, reason)."""
+    flat = [c for c in program if c['op'] not in BLOCK_OPS]
+    if not supported([flat], setup):
+        return None, 'unsupported-op'
+    if r.get('overflow') or any(e is not None for e in r.get('errors', [])):
+        return None, 'run-incomplete'
+    log = r['raw_log']
+    recs = r['calls'][0]
+    pos = [i for i, (cid, _, _) in enumerate(log) if cid == 0]
+    items, tags, seen = [], [], []
+    block = None
+    for rec in recs:
+        if rec.get('pending'):
+            return None, 'run-incomplete'
+        op = rec['op']
+        evs = [tuple(log[p][1].split(':', 1)) for p in pos[rec.get('e0', 0):rec['e1']]] if not rec.get('skipped') else []
+        if block is None and op == 'begin_block' and not rec.get('skipped'):
+            if rec.get('exc'):
+                return None, 'block-not-opened'
+            block = {'retry': bool(rec['call'].get('retry', True)), 'inner': [], 'events': list(evs), 'depth': 1}
+            continue
+        if block is not None:
+            if rec.get('skipped'):
+                continue
+            block['events'] += evs
+            if op == 'begin_block':
+                block['depth'] += 1
+            elif op == 'end_block':
+                block['depth'] -= 1
+            elif op == 'raise_in_block' and rec.get('result') == 'raised-and-caught':
+                block['depth'] -= 1
+            elif op not in BLOCK_OPS:
+                if op not in WRITES:
+                    return None, 'lookup-inside-block'
+                if 'value' in rec['call'] and not stored_inline(rec['call']['value'], settings):
+                    return None, 'file-created-inside-block'
+                block['inner'].append(rec)
+            closed = (op == 'end_block' and block['depth'] == 0) or (op == 'raise_in_block' and rec.get('result') == 'raised')
+            if closed:
+                raises = op == 'raise_in_block'
+                items.append('(BB %s %s %s)' % (fw.cbool(block['retry']), fw.clist([call_term(q['call'], now) for q in block['inner']]), fw.cbool(raises)))
+                tags += tracecorr.call_tags(block['events'])
+                seen.append(seen_term(block['inner'][-1]) if block['inner'] else 'XRes (RBool true)')
+                block = None
+            continue
+        if rec.get('skipped') or op in BLOCK_OPS:
+            continue
+        items.append('(BI %s)' % call_term(rec['call'], now))
+        tags += tracecorr.call_tags(evs, timed_out=(rec.get('exc') == 'Timeout'))
+        seen.append(seen_term(rec))
+    if block is not None:
+        return None, 'block-not-closed'
+    term = 'block_check %s init_st %s %s %s %s %s' % (
+        cfg_term(settings), fw.clist([call_term(c, now) for c in (setup or [])]), fw.clist(items),
+        fw.clist(['(0%%nat, %s)' % t for t in tags]), fw.clist(seen), seqdrv.obs_term(r['final'])[len('(Some '):-1])
+    return term, {'events': [(0, t) for t in tags], 'seen': [seen]}
 
 
 def evaluate(name, terms, chunk=40):
